@@ -813,11 +813,24 @@ func (a *fnAnalysis) callWrites(c *ast.CallExpr) {
 	}
 	fn := calleeFunc(info, c)
 	if fn == nil {
-		return
+		if tv, ok := info.Types[c.Fun]; ok && tv.IsType() {
+			return // conversion
+		}
+		// a call through a function value, method value, closure or func-typed variable: the callee is unknown,
+		// so what it writes is unknown.  The library has none; the analysis refuses rather than assume purity.
+		die("%s: call through a function value (%s): what it writes cannot be determined", fset.Position(c.Pos()), a.src(c.Fun))
 	}
 	sig, _ := fn.Type().(*types.Signature)
 	if sig == nil {
 		return
+	}
+	if sel, ok := c.Fun.(*ast.SelectorExpr); ok && sig.Recv() != nil {
+		if tv, ok := info.Types[sel.X]; ok && tv.IsType() {
+			die("%s: method expression %s: receiver passed as an argument is not tracked", fset.Position(c.Pos()), a.src(c.Fun))
+		}
+		if _, isIface := sig.Recv().Type().Underlying().(*types.Interface); isIface && fn.Pkg() != nil && strings.HasPrefix(fn.Pkg().Path(), modulePrefix) {
+			die("%s: call through an interface of this module (%s): dynamic dispatch is not resolved", fset.Position(c.Pos()), a.src(c.Fun))
+		}
 	}
 	if s, ok := summaries[fn]; ok {
 		if sig.Recv() != nil && s.writesRecv {
@@ -840,6 +853,10 @@ func (a *fnAnalysis) callWrites(c *ast.CallExpr) {
 		rt := sig.Recv().Type().String()
 		switch {
 		case strings.HasSuffix(rt, "math/big.Int"):
+			switch fn.Name() {
+			case "QuoRem", "DivMod", "GCD":
+				die("%s: big.Int.%s writes several of its arguments: not summarised", fset.Position(c.Pos()), fn.Name())
+			}
 			if bigMutating[fn.Name()] {
 				a.emit(c, "big.Int."+fn.Name(), sel.X, a.originOf(sel.X))
 			} else if fn.Name() == "FillBytes" {
@@ -883,7 +900,30 @@ func (a *fnAnalysis) callWrites(c *ast.CallExpr) {
 		a.emit(c, full, c.Args[0], a.originOf(c.Args[0]))
 	case "io.ReadFull":
 		a.emit(c, full, c.Args[1], a.originOf(c.Args[1]))
+	default:
+		// any other function outside this module is assumed not to write through its arguments ONLY if it has been
+		// reviewed: the list below is every external function the library calls today.  A new one (sort.Slice,
+		// json.Unmarshal, fmt.Sscan, …) stops the analysis.
+		if !strings.HasPrefix(fn.Pkg().Path(), modulePrefix) && !reviewedExtern[full] {
+			if os.Getenv("EFFECTS_LIST_EXTERN") != "" {
+				fmt.Fprintln(os.Stderr, "EXTERN", full)
+				return
+			}
+			die("%s: call of %s, an external function that has not been reviewed for writes through its arguments", fset.Position(c.Pos()), full)
+		}
 	}
+}
+
+const modulePrefix = "github.com/iden3/go-iden3-crypto"
+
+// external (non-method) functions the library calls, reviewed: none writes through an argument (hex.Decode,
+// rand.Read and io.ReadFull, which do, are handled above)
+var reviewedExtern = map[string]bool{
+	"bytes.HasPrefix": true, "encoding/hex.DecodeString": true, "encoding/hex.EncodeToString": true, "errors.New": true,
+	"fmt.Errorf": true, "fmt.Sprintf": true, "github.com/dchest/blake512.New": true,
+	"golang.org/x/crypto/sha3.NewLegacyKeccak256": true, "math/big.NewInt": true, "math/bits.Add64": true,
+	"math/bits.Len64": true, "math/bits.Mul64": true, "math/bits.Sub64": true, "reflect.TypeOf": true,
+	"strconv.FormatUint": true, "strconv.Itoa": true, "strings.TrimPrefix": true,
 }
 
 func analyse(record bool) bool {
@@ -1098,6 +1138,54 @@ func main() {
 				case *ast.GenDecl:
 					if dd.Tok == token.VAR {
 						for _, s := range dd.Specs {
+							// initialisers run at package initialisation and are not part of any function the analysis
+							// walks: a method call on (something reachable from) a package-level variable there could
+							// modify it unseen, so it is refused
+							for _, val := range s.(*ast.ValueSpec).Values {
+								ast.Inspect(val, func(n ast.Node) bool {
+									if _, isLit := n.(*ast.FuncLit); isLit {
+										return false
+									}
+									c, ok := n.(*ast.CallExpr)
+									if !ok {
+										return true
+									}
+									sel, ok := c.Fun.(*ast.SelectorExpr)
+									if !ok {
+										return true
+									}
+									root := ast.Expr(sel.X)
+									for {
+										switch r := root.(type) {
+										case *ast.SelectorExpr:
+											if id, ok := r.X.(*ast.Ident); ok {
+												if _, isPkg := p.TypesInfo.Uses[id].(*types.PkgName); isPkg {
+													root = r.Sel
+													continue
+												}
+											}
+											root = r.X
+											continue
+										case *ast.ParenExpr:
+											root = r.X
+											continue
+										case *ast.StarExpr:
+											root = r.X
+											continue
+										case *ast.IndexExpr:
+											root = r.X
+											continue
+										}
+										break
+									}
+									if id, ok := root.(*ast.Ident); ok {
+										if v, ok := p.TypesInfo.Uses[id].(*types.Var); ok && v.Pkg() != nil && v.Parent() == v.Pkg().Scope() {
+											die("%s: package-level initialiser calls a method on package-level variable %s", p.Fset.Position(c.Pos()), id.Name)
+										}
+									}
+									return true
+								})
+							}
 							for _, n := range s.(*ast.ValueSpec).Names {
 								if n.Name != "_" {
 									globals = append(globals, p.Types.Name()+"."+n.Name)
@@ -1125,10 +1213,15 @@ func main() {
 		}
 		summaries[f] = sm
 	}
-	for i := 0; i < 12; i++ {
+	converged := false
+	for i := 0; i < 40; i++ {
 		if !analyse(false) {
+			converged = true
 			break
 		}
+	}
+	if !converged {
+		die("write summaries did not reach a fixed point")
 	}
 	sites = nil
 	analyse(true)
